@@ -159,6 +159,10 @@ func (g *genr) op(w, h int) string {
 		return g.csiOp(w, h)
 	case k < 95:
 		p := gen.Pick(r, oscPayloads)
+		if r.Chance(1, 2) {
+			p = g.oscPayload()
+		}
+		g.r.Count("osc:" + oscClass(p))
 		b := "0"
 		if emuh.B64ok(p) {
 			b = "1"
@@ -166,9 +170,83 @@ func (g *genr) op(w, h int) string {
 		return "osc " + hx.Hex(p) + " " + b
 	case k < 96:
 		return gen.Pick(r, []string{"apc", "dcs"})
+	case k < 98:
+		return g.dcsOp()
 	default:
 		return fmt.Sprintf("resize %d %d", g.size(true), g.size(false))
 	}
+}
+
+// oscPayload: a selector (known, unknown, empty) and 0..4 further fields split by ';' (empty fields,
+// stray separators, non-ASCII, control bytes, long values).
+func (g *genr) oscPayload() string {
+	r := g.rng
+	sel := gen.Pick(r, []string{"0", "2", "8", "9", "11", "52", "777", "1", "4", "10", "104", "7", "", "00", "8 ", "-1", "5 2", "777 "})
+	fields := []string{"", "x", "?", "notify", "aGk=", "aGk", "!!", "====", "id=1", "id=1:k=v", "http://x", "c", "p", "é", "世界", "\x00", "\x7f", " ", "title with spaces", strings.Repeat("A", 300), "QUJD", "QUJD\n"}
+	n := r.Intn(5)
+	p := sel
+	for i := 0; i < n; i++ {
+		p += ";" + gen.Pick(r, fields)
+	}
+	if r.Chance(1, 10) {
+		p += ";"
+	}
+	return p
+}
+
+func oscClass(p string) string {
+	i := strings.Index(p, ";")
+	if i < 0 {
+		return "no-semicolon"
+	}
+	switch sel := p[:i]; sel {
+	case "0", "2", "8", "9", "11", "52", "777":
+		return sel + "/" + fmt.Sprint(strings.Count(p, ";")) + "sep"
+	default:
+		return "other-selector"
+	}
+}
+
+var sixelFrags = []string{"#", "0", "1", ";", "2", "100", "!", "~", "?", "-", "$", "\"", "@", "A", "255", "#0;2;0;0;0", "#1;2;100;100;100", "!255~", "\"1;1;10;10",
+	"!4096~", "!4095~", "!4097~", "!2000~", "! 4096~", "\"1;1;4096;4096", "\"1;1;4097;1", "\"1;1;1;4097", "\"1;1;99999;99999", "4096", "4097", "!999~", "+", "_", "!1_0~", "#1~", "~~~~",
+	"\"1;1;10;104294967296", "!4294967296~", "99999999999999999999", "é", "\x00", "\x7f", " "}
+
+// dcsOp: a DCS that reaches the real ansi.DCS branch of update(): final q (sixel) or another one,
+// with/without intermediates and parameters, data from sixel fragments around the size limit.
+func (g *genr) dcsOp() string {
+	r := g.rng
+	fin := "q"
+	if r.Chance(1, 6) {
+		fin = gen.Pick(r, []string{"p", "r", "|", "{"})
+	}
+	ni, np := 0, 0
+	if r.Chance(1, 8) {
+		ni = 1
+	}
+	if r.Chance(1, 8) {
+		np = r.Range(1, 2)
+	}
+	var d string
+	switch r.Intn(10) {
+	case 0:
+		d = ""
+	case 1:
+		// many sixel lines: the line limit
+		d = strings.Repeat("~-", r.Range(600, 700))
+	case 2:
+		// a long line of plain sixels: the width limit
+		d = strings.Repeat("~", r.Range(4000, 4200))
+	case 3:
+		// a small valid image
+		d = "\"1;1;4;6#0;2;0;0;0#1;2;100;0;0#1~~~~$#0????-#1!4~"
+	default:
+		n := r.Range(1, 12)
+		for i := 0; i < n; i++ {
+			d += gen.Pick(r, sixelFrags)
+		}
+	}
+	op := "dcs " + hx.Hex(fin) + " " + fmt.Sprint(ni) + " " + fmt.Sprint(np) + " " + hx.Hex(d)
+	return op
 }
 
 func (g *genr) size(width bool) int {
@@ -217,6 +295,23 @@ func (g *genr) flush() {
 			g.r.Emit(l[0], l[1])
 			if f := strings.Fields(l[0]); len(f) > 0 {
 				g.r.Count("op:" + f[0])
+				if f[0] == "dcs" && len(f) == 5 {
+					switch {
+					case f[1] != "71":
+						g.r.Count("dcs:other-final")
+					case f[2] != "0" || f[3] != "0":
+						g.r.Count("dcs:q-with-intermediates-or-parameters")
+					case strings.Contains(l[1], " tl=1 "):
+						g.r.Count("dcs:sixel-refused-too-large")
+					case strings.HasSuffix(l[1], " gfx=1"):
+						g.r.Count("dcs:sixel-decoded")
+					case strings.HasSuffix(l[1], " gfx=0"):
+						g.r.Count("dcs:sixel-decoder-error")
+					default:
+						// the hypothesis on the decoder (tame on payloads that pass the guard) is violated
+						g.r.Count("dcs:DECODER-CRASH-WITHIN-LIMIT")
+					}
+				}
 			}
 		}
 		switch res.Outcome {
@@ -356,9 +451,8 @@ func run(r *hx.Run) error {
 					break read
 				}
 				if d, isDcs := seq.(ansi.DCS); isDcs && d.Final == 'q' {
-					// sixel payloads go to an external decoder (go-sixel): not part of the model
-					r.Count("fuzz:sixel-skipped")
-					continue
+					// sixel payloads go to the external decoder (go-sixel) behind the size guard
+					r.Count("fuzz:sixel")
 				}
 				seqs = append(seqs, emuh.OpLine(seq))
 			case <-timeout:
